@@ -76,6 +76,7 @@ type RunResult struct {
 	Summary      string            `json:"summary"`
 	WallMs       int64             `json:"wall_ms"`
 	SimMs        int64             `json:"sim_ms"`
+	fullLog      []string
 }
 
 // Ctx is the per-run context shared by a world, its clients and its monitors.
@@ -101,6 +102,8 @@ type Ctx struct {
 
 const tailLen = 120
 
+var traceLive = os.Getenv("VERIF_TRACE") != ""
+
 func (c *Ctx) NowMs() int64 { return time.Since(c.epoch).Milliseconds() }
 
 func (c *Ctx) Seq() int64 { c.seq++; return c.seq }
@@ -112,6 +115,9 @@ func (c *Ctx) Logf(f string, a ...any) {
 	h.Write([]byte(line))
 	c.logHash = c.logHash*1099511628211 ^ h.Sum64()
 	c.logN++
+	if traceLive {
+		fmt.Fprintln(os.Stderr, line)
+	}
 	if c.Job.DumpLog {
 		c.full = append(c.full, line)
 	}
@@ -249,8 +255,8 @@ func BuildMask(mode string) []bool {
 			m[i] = true
 			continue
 		}
-		if s.Pkg == "sim" {
-			continue
+		if s.Pkg == "sim" || strings.HasPrefix(s.Pos, "manager.go:") {
+			continue // the manager's forwarding code must not shift the schedule between the twin runs of C17
 		}
 		switch {
 		case mode == "all":
